@@ -1860,7 +1860,7 @@ def _determine_gap(o, e_content, e_name):
         if isinstance(o.idl[r_name], range):
             gaps.append(o.idl[r_name].step)
         else:
-            gaps.append(np.min(np.diff(o.idl[r_name])))
+            gaps.append(np.gcd.reduce(np.diff(o.idl[r_name])))
 
     gap = min(gaps)
     if not np.all([gi % gap == 0 for gi in gaps]):
